@@ -5,7 +5,7 @@ from collections import Counter as PyCounter
 from .common import Violation
 from .explore_r import (CancelLog, ExecutionLog, ExpirationLog, MarketStepBeginLog, MarketStepEndLog,
                         OrderLog, SessionBeginLog, SessionEndLog, SimulationBeginLog, SimulationEndLog,
-                        HighFrequencyAgent, IndexMarket)
+                        HighFrequencyAgent, IndexMarket, LIMIT_ORDER)
 
 
 def V(cond, mon, msg, detail=""):
@@ -42,6 +42,9 @@ def split_steps(w):
             continue
         if e[0] in ("lw", "lp") and in_clock and isinstance(e[1], ExpirationLog):
             continue  # expiry records are written inside the clock advance
+        if e[0] == "idx_clock" and in_clock:
+            segs[-1].append(e)  # an observer's snapshot between the clock advances of two markets of one step
+            continue
         in_clock = False
         segs[-1].append(e)
     return segs[0], segs[1:]
@@ -216,6 +219,9 @@ def acc_C09(w):
                 w.wit.inc("empty_batch")
         V(peek() != "consult", "C09.normal_cap", "a normal agent was consulted after maxNormalOrders agents had produced orders (or twice)",
           "step %d cap %s" % (t, capN))
+        V(n >= capN or len(consulted) == len(normal), "C09.normal_not_all_consulted",
+          "a normal agent was never asked in a step in which fewer than maxNormalOrders agents produced orders",
+          "step %d cap %s: %d of %d agents asked, %d produced orders" % (t, capN, len(consulted), len(normal), n))
         if n >= capN and len(consulted) < len(order):
             w.wit.inc("normal_cap_reached")
         elif len(consulted) == len(order):
@@ -223,7 +229,7 @@ def acc_C09(w):
         if capN == 0:
             w.wit.inc("normal_cap_zero")
         smp2 = nxt("sample")
-        V(smp2 is not None and smp2[3] == len(batches), "C09.batch_sample", "batches of the step are not shuffled once", "step %d" % t)
+        V(smp2 is not None and smp2[3] == len(batches) and len(smp2[1]) == len(batches), "C09.batch_sample", "batches of the step are not shuffled once", "step %d" % t)
         batches = [batches[j] for j in smp2[2]]
         if len(batches) >= 2:
             w.wit.inc("two_normal_batches_in_step")
@@ -252,6 +258,9 @@ def acc_C09(w):
                         if len(c2[2]) >= 2:
                             w.wit.inc("hft_two_order_batch")
                         process_batch(c2, h)
+                V(nh >= capH or hcons == len(hft), "C09.hft_not_all_consulted",
+                  "a high-frequency agent was never asked in a round in which fewer than maxHighFrequencyOrders of them produced orders",
+                  "step %d cap %s: %d of %d asked, %d produced orders" % (t, capH, hcons, len(hft), nh))
                 V(peek() != "consult" or seq[i[0]][1] not in hft, "C09.hft_cap",
                   "a high-frequency agent was consulted after maxHighFrequencyOrders of them had produced orders",
                   "step %d cap %s" % (t, capH))
@@ -292,6 +301,7 @@ def acc_C10(w):
 
     written = []  # records in write order (identity)
     processed = []
+    accepted = {}  # (market, order id) -> the order as accepted
     for e in w.ev:
         k = e[0]
         if k == "lw" and isinstance(e[1], ExpirationLog):
@@ -326,11 +336,18 @@ def acc_C10(w):
             continue
         if k == "acc":
             l, post = e[2], e[6]
+            accepted[(post[1], post[0])] = post
+            V(post[1] == e[1] and post[2] == e[7]["t"], "C10.order_fields",
+              "an accepted order is stamped with a market or time other than the market that accepted it and that market's time",
+              "order market %r placed_at %r, accepted by market %r at time %r" % (post[1], post[2], e[1], e[7]["t"]))
             truth.append(("O", ("OrderLog",) + tuple(sorted(dict(order_id=post[0], market_id=post[1], time=post[2], agent_id=post[3],
                          is_buy=post[4], kind=post[5], volume=post[6], price=post[7], ttl=post[8]).items()))))
             w.wit.inc("order_records")
         elif k == "can":
             post = e[4]
+            V(post[1] == e[1] and post[2] == e[5]["t"], "C10.cancel_fields",
+              "an accepted cancel is stamped with a market or time other than the market that accepted it and that market's time",
+              "cancel market %r time %r, accepted by market %r at time %r" % (post[1], post[2], e[1], e[5]["t"]))
             truth.append(("C", ("CancelLog",) + tuple(sorted(dict(order_id=post[0], market_id=post[1], cancel_time=post[2], order_time=post[3],
                          agent_id=post[4], is_buy=post[5], kind=post[6], volume=post[7], price=post[8], ttl=post[9]).items()))))
             w.wit.inc("cancel_records")
@@ -338,6 +355,19 @@ def acc_C10(w):
             for l in e[2]:
                 truth.append(("X", _fields(l)))
                 w.wit.inc("fill_records")
+                # the record's own fields against what the probes saw (the stream comparison above compares the
+                # record objects with themselves as far as field VALUES go)
+                V(l.market_id == e[1] and l.time == e[4]["t"], "C10.fill_fields",
+                  "a fill record's market or time differs from the market and the time of the matching round that produced it",
+                  "record market %r time %r, round on market %r at time %r" % (l.market_id, l.time, e[1], e[4]["t"]))
+                b, s_ = accepted.get((e[1], l.buy_order_id)), accepted.get((e[1], l.sell_order_id))
+                V(b is not None and s_ is not None and b[4] and not s_[4] and b[3] == l.buy_agent_id and s_[3] == l.sell_agent_id,
+                  "C10.fill_parties", "a fill record names orders or agents that are not the accepted buy and sell order it matched",
+                  "record buy order %r agent %r sell order %r agent %r; accepted %r / %r" % (
+                      l.buy_order_id, l.buy_agent_id, l.sell_order_id, l.sell_agent_id, b, s_))
+                V(l.volume > 0 and (b[5] != LIMIT_ORDER or l.price <= b[7]) and (s_[5] != LIMIT_ORDER or l.price >= s_[7]),
+                  "C10.fill_values", "a fill record carries a non-positive volume or a price outside the limits of its two orders",
+                  "price %r volume %r buy limit %r sell limit %r" % (l.price, l.volume, b[7], s_[7]))
             if len(e[2]) >= 2:
                 w.wit.inc("multi_fill_round")
     flush_exp()
